@@ -202,16 +202,14 @@ def aerostruct_problem(surfaces, flow=None, npts=1, compressible=False, rotation
             ivc.add_output(s["name"] + "_point_mass_locations",
                            val=np.array(fl.get("point_mass_locations", [[1.0, -1.0, 0.0]] * n), float), units="m")
             ivc.add_output(s["name"] + "_engine_thrusts", val=np.array(fl.get("engine_thrusts", [0.0] * n), float), units="N")
-    if rotational:
-        ivc.add_output("omega", val=np.array(fl.get("omega", [0.0, 0.0, 0.0]), float), units="rad/s")
     prob.model.add_subsystem("prob_vars", ivc, promotes=["*"])
     for s in surfaces:
         prob.model.add_subsystem(s["name"], AerostructGeometry(surface=s))
     for i in range(npts):
         pn = "AS_point_%d" % i
         prom = ["beta", "CT", "R", "W0", "empty_cg"]
-        if rotational:
-            prom.append("omega")
+        # rotational=True: AerostructPoint does not promote omega / cg of its coupled aerodynamic states; the caller sets
+        # AS_point_i.coupled.aero_states.omega / .cg by absolute name after setup
         if flows is None:
             prom += ["v", "alpha", "Mach_number", "re", "rho", "speed_of_sound", "load_factor"]
         prob.model.add_subsystem(pn, AerostructPoint(surfaces=surfaces, compressible=compressible, rotational=rotational),
